@@ -147,6 +147,15 @@ CLAIMS = {'C01': {'note': 'Not decided (SQL): the upsert input=input+excluded.in
                  'balances at a PIT need MOVES_HISTORY (insertion date) or MOVES_HISTORY_POST_COMMIT_EFFECTIVE_VOLUMES (effective date); accounts balance filters at a PIT need both; accounts '
                  'Expand(volumes / effectiveVolumes) and transactions Expand(effectiveVolumes) need their feature; Ledger.HasFeature is only called with valid (feature, value) pairs (its panic is '
                  'unreachable). Two missing gates were found as refuted obligations and repaired (F12, F13).'},
+ 'C36': {'note': "Not decided: SQL numeric columns, JSON encoders of the responses, every API version's rendering, aggregation and filtering in SQL. Assumed (math/big documentation): "
+                 'big.Rat.SetString parses the exact rational (in lowest terms), big.Int.Quo truncates, big.Int.String is the decimal rendering. ScriptV1.UnmarshalJSON (json.Decoder.UseNumber) is '
+                 'not under contract; the demo test findings/F7_json_number_amount exercises it. float64 values handed to ToCore by programmatic callers keep the lossy conversion.',
+         'ref': 'DESIGN.md §4 C36',
+         'text': 'Go arithmetic paths, proved for all magnitudes: every arithmetic contract of C01-C03, C06, C22-C24 is over mathematical (unbounded) integers, so values above 2^63 and 2^64 are the '
+                 'general case, and every conversion of an integer to a narrower machine type inside a function under contract carries a range obligation (none is left undischarged). For the JSON '
+                 'path: vm.numberToInteger returns the decimal rendering of the integer part of the exact rational the JSON number denotes (big.Rat, no float), and ScriptV1.ToCore renders a '
+                 'json.Number amount through it and an integral json.Number variable as its exact decimal; MonetaryInt Add/Sub/Neg/comparisons and Allotment.Allocate are exact. The original '
+                 'float64/int() path lost precision above 2^53 and overflowed above 2^63 (finding F7, repaired: ScriptV1 decodes with json.Number).'},
  'C38': {'note': "Not covered: the chi router and status-code mapping of every route, HydrateLog's reflection, DefaultController.Import's outer loop (reads through an interface chain that is "
                  "opaque). 'Ledger unchanged' is C07.",
          'ref': 'DESIGN.md §4 C38',
@@ -175,8 +184,5 @@ NA = {'C04': 'Effective volumes are computed by the PL/pgSQL triggers set_effect
         "recursive chart type is within the generator's subset, and a bounded enumeration would be a test rather than a contract proof.",
  'C33': 'Goroutines, select, timers, at-least-once delivery and liveness: concurrency and eventuality are outside this family (no thread or temporal reasoning in a WP calculus).',
  'C34': 'create_blocks is a stored procedure; commit/id reordering is a database-concurrency phenomenon.',
- 'C36': 'Exactness through SQL numeric, JSON encoders and every API version is outside the Go contracts. All arithmetic proofs here (C01-C03, C22-C24) are over unbounded integers with math/big '
-        'assumed exact, and ScriptV1.ToCore is proved panic-free (C38), but the float64 conversion in ScriptV1.ToCore (design-review item) is a precision question about encoding/json number decoding '
-        'that the SMT model of floats does not cover; nothing is claimed.',
  'C37': 'Result equality between a template run and a direct query depends on the store; the Go part is JSON/string templating (ResolveFilterTemplate) that the generator cannot reach; '
         'templateParamsToQuery is covered under C21.'}
